@@ -67,12 +67,23 @@ pub fn string_to_tokens(file_id: usize, content: &str) -> Vec<PlacedToken> {
         .map(|(token, byte_range)| {
             let is_newline = token == Token::Newline;
             let col_start = char_at_byte[byte_range.start].unwrap() - last_newline;
+            let line_start = line;
+            if !is_newline {
+                // Tokens (string literals) may span several lines. Keep the line and
+                // column bookkeeping in step with the newlines inside them.
+                for (offset, c) in content[byte_range.clone()].char_indices() {
+                    if c == '\n' {
+                        last_newline = char_at_byte[byte_range.start + offset].unwrap();
+                        line += 1;
+                    }
+                }
+            }
             let col_end = char_at_byte[byte_range.end].unwrap() - last_newline;
             let span = Span {
                 file_id,
                 col_start,
                 col_end,
-                line_start: line,
+                line_start,
                 line_end: line,
             };
             if is_newline {
